@@ -15,13 +15,13 @@ use std::sync::{Arc, Mutex};
 
 pub const SDL: &str = r#"
 type Query {
-  a: Int!  n: Int  n2: Int  f: Float  fnn: Float!  s: String  e: E  enn: E!  g: Int  gnn: Int!
+  a: Int!  n: Int  n2: Int  f: Float  fnn: Float!  s: String  e: E  enn: E!  g: Int  gnn: Int!  arg(x: Int! = 5): Int
   o: A  onn: A!  i: I  inn: I!  u: U  unn: U!  j: J
   l: [A!]!  ln: [A]  lnn: [A]!  lo: [A!]  li: [Int]  lin: [Int!]  ll: [[Int]]  lu: [U!]  lI: [I]
 }
 interface I { a: Int!  n: Int  o: A }
 interface J { a: Int! }
-type A implements I { a: Int!  n: Int  n2: Int  g: Int  gnn: Int!  o: A  onn: A!  i: I  u: U  l: [A!]!  ln: [A]  li: [Int]  pa: Int  f: Float }
+type A implements I { a: Int!  n: Int  n2: Int  g: Int  gnn: Int!  o: A  onn: A!  i: I  u: U  l: [A!]!  ln: [A]  li: [Int]  pa: Int  f: Float  arg(x: Int! = 5): Int }
 type B implements I & J { a: Int!  n: Int  o: A  u: U  pb: Int }
 type C implements J { a: Int!  pc: Int }
 union U = A | B | C
@@ -39,10 +39,29 @@ pub struct Wd {
     pub gates: Option<Handle>,
     /// number of events each subscription field yields (default 1)
     pub events: usize,
+    /// when true, every resolver records the look-ahead / selection views it is given
+    pub record_views: bool,
+    pub views: Mutex<Vec<View>>,
+    /// (response path, field name) of every resolver start
+    pub names: Mutex<Vec<(String, String)>>,
 }
+
+/// What a resolver saw through `ctx.field().selection_set()` and `ctx.look_ahead()`.
+#[derive(Clone, Debug)]
+pub struct View {
+    pub path: String,
+    /// (name, alias, arguments as JSON) of every direct sub-field listed by `selection_set()`
+    pub selection: Vec<(String, Option<String>, String)>,
+    /// candidate names for which `look_ahead().field(name).exists()`
+    pub look_ahead: Vec<String>,
+    /// names of `look_ahead().selection_fields()[..].selection_set()` (the look-ahead's own listing)
+    pub look_ahead_listing: Vec<String>,
+}
+
+pub const ALL_FIELD_NAMES: &[&str] = &["a", "n", "n2", "f", "fnn", "s", "e", "enn", "g", "gnn", "arg", "o", "onn", "i", "inn", "u", "unn", "j", "l", "ln", "lnn", "lo", "li", "lin", "ll", "lu", "lI", "pa", "pb", "pc"];
 impl Wd {
     pub fn new(table: BTreeMap<String, Ans>) -> Wd {
-        Wd { table, log: Mutex::new(Vec::new()), gates: None, events: 1 }
+        Wd { table, log: Mutex::new(Vec::new()), gates: None, events: 1, record_views: false, views: Mutex::new(Vec::new()), names: Mutex::new(Vec::new()) }
     }
     pub fn log(&self, s: String) {
         self.log.lock().unwrap().push(s);
@@ -66,6 +85,21 @@ pub async fn enter(ctx: &Context<'_>) -> Got {
     let wd = ctx.data_unchecked::<W>().clone();
     let path = ctx.path_node.map(|p| p.to_string()).unwrap_or_default();
     wd.log(format!("S:{path}"));
+    if wd.record_views {
+        let f = ctx.field();
+        wd.names.lock().unwrap().push((path.clone(), f.name().to_string()));
+        let selection = f
+            .selection_set()
+            .map(|c| {
+                let args = c.arguments().map(|a| serde_json::to_string(&a.iter().map(|(k, v)| (k.to_string(), v.clone().into_json().unwrap_or_default())).collect::<Vec<_>>()).unwrap_or_default()).unwrap_or_else(|e| format!("<error {}>", e.message));
+                (c.name().to_string(), c.alias().map(|x| x.to_string()), args)
+            })
+            .collect();
+        let la = ctx.look_ahead();
+        let look_ahead = ALL_FIELD_NAMES.iter().filter(|n| la.field(n).exists()).map(|n| n.to_string()).collect();
+        let look_ahead_listing = la.selection_fields().iter().flat_map(|sf| sf.selection_set().map(|c| c.name().to_string()).collect::<Vec<_>>()).collect();
+        wd.views.lock().unwrap().push(View { path: path.clone(), selection, look_ahead, look_ahead_listing });
+    }
     if let Some(h) = &wd.gates {
         h.gate(path.clone()).await;
     }
@@ -418,6 +452,15 @@ impl A {
     async fn f(&self, ctx: &Context<'_>) -> Result<Option<f64>> {
         enter(ctx).await.float_opt()
     }
+    /// echoes its argument
+    async fn arg(&self, ctx: &Context<'_>, #[graphql(default = 5)] x: i32) -> Result<Option<i32>> {
+        let g = enter(ctx).await;
+        match g.ans {
+            Some(Ans::Err) => Err(Error::new("boom")),
+            Some(Ans::Null) => Ok(None),
+            _ => Ok(Some(x)),
+        }
+    }
 }
 
 #[Object]
@@ -476,6 +519,15 @@ impl Query {
     }
     async fn enn(&self, ctx: &Context<'_>) -> Result<E> {
         enter(ctx).await.enum_nn()
+    }
+    /// echoes its argument
+    async fn arg(&self, ctx: &Context<'_>, #[graphql(default = 5)] x: i32) -> Result<Option<i32>> {
+        let g = enter(ctx).await;
+        match g.ans {
+            Some(Ans::Err) => Err(Error::new("boom")),
+            Some(Ans::Null) => Ok(None),
+            _ => Ok(Some(x)),
+        }
     }
     #[graphql(guard = "WG")]
     async fn g(&self, ctx: &Context<'_>) -> Option<i32> {
